@@ -178,6 +178,105 @@ pub const W_BULK: W = &[
     (2, K::Flush),
 ];
 
+pub const W_READER: W = &[
+    (1, K::Nop),
+    (10, K::DerefS),
+    (4, K::Deref),
+    (8, K::Pin),
+    (2, K::Unpin),
+    (16, K::Load),
+    (6, K::Counted),
+    (3, K::Drop),
+    (2, K::Reactivate),
+    (2, K::WLoad),
+    (3, K::WUpgrade),
+    (2, K::Upgrade),
+    (2, K::Downgrade),
+    (2, K::SnapDowngrade),
+    (1, K::Cas),
+    (1, K::Quiesce),
+];
+
+pub const W_MUTATOR: W = &[
+    (1, K::Nop),
+    (3, K::Advance),
+    (4, K::Quiesce),
+    (8, K::Pin),
+    (5, K::Unpin),
+    (6, K::New),
+    (3, K::Clone),
+    (12, K::Drop),
+    (8, K::Load),
+    (4, K::Counted),
+    (8, K::Store),
+    (4, K::Swap),
+    (12, K::SwapNull),
+    (6, K::Cas),
+    (2, K::CasTag),
+    (3, K::Finalize),
+    (2, K::Downgrade),
+    (2, K::WStore),
+    (2, K::WDrop),
+];
+
+pub const W_COLLECTOR: W = &[
+    (1, K::Nop),
+    (20, K::Advance),
+    (6, K::Quiesce),
+    (2, K::SwapNull),
+    (3, K::Drop),
+    (1, K::New),
+];
+
+/// Role-based programs on a prebuilt structure: thread 0 reads (long critical sections), threads
+/// 1-2 mutate and unlink, thread 3 collects. Thread 1 first builds Q -> P -> X under root0 with
+/// X also in root1 and P also in root2, a Weak to X in wroot0.
+pub fn role_case(max_ops: usize, max_dirs: usize, sites: &'static [u32]) -> BoxedStrategy<Value> {
+    (
+        0u8..48,
+        proptest::collection::vec(op_strategy(W_READER), 0..=max_ops),
+        proptest::collection::vec(op_strategy(W_MUTATOR), 0..=max_ops),
+        proptest::collection::vec(op_strategy(W_MUTATOR), 0..=max_ops),
+        proptest::collection::vec(op_strategy(W_COLLECTOR), 0..=max_ops / 2),
+        proptest::collection::vec(directive_strategy(4, sites), 0..=max_dirs),
+        0u8..4,
+        prop_oneof![1 => Just(0u8), 4 => 1u8..4],
+    )
+        .prop_map(|(align, r, m1, m2, c, dirs, settle, rr)| {
+            let mut t = TB::new(4);
+            t.new_node(1, "X", None, None, 3, 40);
+            t.new_node(1, "P", Some("X"), None, 3, 0);
+            t.new_node(1, "Q", Some("P"), None, 3, 0);
+            t.pin(1);
+            t.store(1, C::Root(0), Some("Q"), 0);
+            t.clone_rc(1, "X", "Xc");
+            t.store(1, C::Root(1), Some("Xc"), 0);
+            t.clone_rc(1, "P", "Pc");
+            t.store(1, C::Root(2), Some("Pc"), 0);
+            t.downgrade(1, "X", "w");
+            t.wstore(1, WC::Root(0), Some("w"), 0);
+            t.unpin(1, 0);
+            t.advance(1, settle);
+            t.run(1);
+            let mut threads = t.threads.clone();
+            let mut sched = t.sched.clone();
+            threads[0].extend(r);
+            threads[1].extend(m1);
+            threads[2].extend(m2);
+            threads[3].extend(c);
+            sched.extend(dirs);
+            serde_json::to_value(RcCase {
+                align,
+                threads,
+                sched,
+                tmpl: "roles".to_string(),
+                rr,
+            })
+            .unwrap()
+        })
+        .boxed()
+}
+
 pub fn op_strategy(w: W) -> impl Strategy<Value = Op> {
     let total: u32 = w.iter().map(|(n, _)| *n).sum();
     (0..total, any::<u8>(), any::<u8>(), any::<u8>()).prop_map(move |(mut i, a, b, c)| {
@@ -251,14 +350,16 @@ pub fn free_case(
                     n..=n,
                 ),
                 proptest::collection::vec(directive_strategy(n as u8, sites), 0..=max_dirs),
+                prop_oneof![Just(0u8), 1u8..4],
             )
         })
-        .prop_map(|(align, threads, sched)| {
+        .prop_map(|(align, threads, sched, rr)| {
             serde_json::to_value(RcCase {
                 align,
                 threads,
                 sched,
                 tmpl: String::new(),
+                rr,
             })
             .unwrap()
         })
@@ -276,6 +377,7 @@ pub fn seq_case(w: W, max_ops: usize) -> BoxedStrategy<Value> {
                 threads: vec![ops],
                 sched: vec![],
                 tmpl: String::new(),
+                rr: 0,
             })
             .unwrap()
         })
@@ -719,6 +821,7 @@ impl TB {
             threads: self.threads,
             sched: self.sched,
             tmpl: tmpl.to_string(),
+            rr: 0,
         })
         .unwrap()
     }
